@@ -262,6 +262,52 @@ pub fn policy_sets(tier: Tier, schema: &cedar_policy::Schema) -> Vec<(Vec<Pol>, 
         p.action = act;
         valid.push(p);
     }
+    // compositional family (after seed C14-a1): an operand that errors on SOME completion
+    // (absent entity, overflow), held inside every container kind next to operands that cannot
+    // error, against a right operand TPE already knows - `C || true` may only fold to `true`
+    // when C cannot error
+    let leaves: Vec<E> = vec![
+        E::attr(E::attr(rs.clone(), "owner"), "age"),
+        E::bin(BinOp::Add, E::attr(cx.clone(), "n"), E::Long(1)),
+        E::bin(BinOp::Mul, E::attr(pr.clone(), "age"), E::attr(cx.clone(), "n")),
+    ];
+    let containers: Vec<fn(E, E) -> E> = vec![
+        |l, _| E::bin(BinOp::Contains, E::Set(vec![l, E::Long(0)]), E::Long(7)),
+        |l, _| E::bin(BinOp::Contains, E::Set(vec![E::Long(0), l]), E::Long(0)),
+        |l, _| E::bin(BinOp::Eq, E::attr(E::Rec(vec![("a".into(), l), ("b".into(), E::Long(1))]), "b"), E::Long(1)),
+        |l, _| E::bin(BinOp::Eq, l, E::Long(0)),
+        |l, p| E::bin(BinOp::Eq, E::ite(E::has(p, "nick"), l, E::Long(0)), E::Long(0)),
+        |l, _| E::bin(BinOp::Contains, E::Set(vec![E::Set(vec![l]), E::Set(vec![E::Long(0)])]), E::Set(vec![E::Long(0)])),
+        |l, _| E::bin(BinOp::ContainsAny, E::Set(vec![l]), E::Set(vec![E::Long(1), E::Long(3)])),
+        |l, _| E::IsEmpty(b(E::Set(vec![l, E::Long(0)]))),
+        |l, _| E::has(E::Rec(vec![("a".into(), l)]), "a"),
+        |l, _| E::bin(BinOp::Lt, E::Neg(b(l)), E::Long(0)),
+        |l, _| E::bin(BinOp::ContainsAll, E::Set(vec![l, E::Long(0)]), E::Set(vec![E::Long(0)])),
+    ];
+    let mut k = 0usize;
+    for l in &leaves {
+        for c in &containers {
+            let ce = c(l.clone(), pr.clone());
+            for o in 0..5usize {
+                k += 1;
+                let known_t = if k % 2 == 0 { E::Bool(true) } else { E::Is(b(pr.clone()), "User".into()) };
+                let known_f = if k % 2 == 0 { E::Bool(false) } else { E::not(E::Is(b(pr.clone()), "User".into())) };
+                if tier == Tier::Quick && (k % 3 != 0) {
+                    continue;
+                }
+                let e = match o {
+                    0 => E::or(ce.clone(), known_t),
+                    1 => E::and(ce.clone(), known_f),
+                    2 => E::ite(ce.clone(), known_t.clone(), known_t),
+                    3 => E::or(E::not(ce.clone()), known_t),
+                    _ => E::and(E::or(ce.clone(), known_t), E::bin(BinOp::Eq, E::attr(rs.clone(), "owner"), pr.clone())),
+                };
+                let mut p = Pol::simple(&format!("f{}", valid.len()), if k % 2 == 0 { Effect::Forbid } else { Effect::Permit }, Some(e));
+                p.action = AS::Eq(view());
+                valid.push(p);
+            }
+        }
+    }
     let st = Style::default();
     let mut out = Vec::new();
     let mk = |ps: &[&Pol]| -> Option<cedar_policy::PolicySet> {
